@@ -122,6 +122,8 @@ func printStruct(t *mdTable, s reflect.Value) string {
 			if ns != 0 {
 				fmt.Fprintf(&sb, ".%09d", ns)
 			}
+		} else if sl.kind == "bool" && bitsOf(f) >= 2 && bitsOf(f) != 255 {
+			fmt.Fprintf(&sb, "rb:%02x", bitsOf(f))
 		} else {
 			sb.WriteString(printValue(slotContent(sl, f)))
 		}
@@ -190,6 +192,14 @@ func parseStruct(t *mdTable, txt string) (reflect.Value, bool) {
 				return bad, false
 			}
 			f.Set(reflect.ValueOf(time.Unix(fitEpochU+sec, 0).UTC()))
+			continue
+		}
+		if sl.kind == "bool" && strings.HasPrefix(slots[i], "rb:") {
+			b, err := strconv.ParseUint(slots[i][3:], 16, 8)
+			if err != nil || len(slots[i]) != 5 || b < 2 || b == 255 || strings.ToLower(slots[i]) != slots[i] {
+				return bad, false
+			}
+			setBits(f, b)
 			continue
 		}
 		v, ok := parseValue(slots[i])
